@@ -1,4 +1,17 @@
+//! vf-serde — serialization round-trip properties C35 (logical proto), C36 (physical proto),
+//! C37 (Substrait), C38 (plan → SQL). Shared helpers in `common`, expression trees in `exprgen`.
+mod c35;
+mod c36;
+mod c37;
+mod c38;
+mod common;
+mod exprgen;
+
 fn main() {
-    eprintln!("no sub-commands yet");
-    std::process::exit(2);
+    vf_kit::dispatch! {
+        "c35" => c35::C35,
+        "c36" => c36::C36,
+        "c37" => c37::C37,
+        "c38" => c38::C38,
+    }
 }
